@@ -562,6 +562,78 @@ Proof.
 Qed.
 
 (* ------------------------------------------------------------------ *)
+(** * completeness of the proof format: every derivable equality has a proof object the checker
+      accepts (for programs the checker accepts at all: distinct rule names, evaluable globals) *)
+
+Lemma existsb_eqb_false x l : existsb (Nat.eqb x) l = false -> ~ In x l.
+Proof.
+  intros H Hin. assert (E : existsb (Nat.eqb x) l = true).
+  { apply existsb_exists. exists x. split; auto. apply Nat.eqb_refl. }
+  congruence.
+Qed.
+
+Lemma find_rule_unique : forall prog rl,
+  nodup_nat (map rname (rules_of prog)) = true -> In rl (rules_of prog) ->
+  find_rule prog (rname rl) = Some rl.
+Proof.
+  induction prog as [|c tl IH]; intros rl Hn Hin; cbn [rules_of] in *; [destruct Hin|].
+  destruct c as [a|r0|]; cbn [find_rule]; auto.
+  cbn [rules_of map nodup_nat] in Hn. apply andb_true_iff in Hn. destruct Hn as [Hx Hn].
+  apply negb_true_iff in Hx. apply existsb_eqb_false in Hx.
+  destruct Hin as [->|Hin].
+  - rewrite Nat.eqb_refl. reflexivity.
+  - destruct (Nat.eqb (rname r0) (rname rl)) eqn:E; [|apply IH; auto].
+    apply Nat.eqb_eq in E. exfalso. apply Hx. rewrite E. apply in_map. exact Hin.
+Qed.
+
+Theorem checker_complete prog g : ctx_new prog = Some g ->
+  forall a b, Derivable prog a b -> exists p, check g prog p = Some (a, b).
+Proof.
+  intros Hg. destruct (ctx_new_spec _ _ Hg) as (Hb & He & Hn).
+  intros a b H.
+  induction H using Derivable_mind with
+    (P0 := fun w fs (_ : Holds prog w fs) =>
+             exists prems, length fs = length prems /\ check_prems (check g prog) w fs prems = true).
+  - exists (PFiat a b). cbn [check]. rewrite He.
+    assert (E : in_props a b (gprops prog) = true) by (apply in_props_In; assumption).
+    rewrite E, orb_true_r. reflexivity.
+  - exists (PFiat (TI z) (TI z)). cbn [check is_lit]. rewrite tm_eqb_refl. reflexivity.
+  - destruct IHDerivable as (prems & Hlen & Hc).
+    exists (PRule a b (rname rl) prems sub). rewrite check_rule_eq.
+    rewrite (find_rule_unique _ _ Hn i). rewrite Hlen, Nat.eqb_refl. rewrite Hb, Hc, e.
+    assert (E : in_props a b props = true) by (apply in_props_In; assumption).
+    rewrite E. reflexivity.
+  - destruct IHDerivable as [p Hp]. exists (PSym b a p). cbn [check]. rewrite Hp.
+    rewrite !tm_eqb_refl. reflexivity.
+  - destruct IHDerivable1 as [p Hp]. destruct IHDerivable2 as [q Hq].
+    exists (PTrans a c p q). cbn [check]. rewrite Hp, Hq, !tm_eqb_refl. reflexivity.
+  - destruct IHDerivable1 as [p Hp]. destruct IHDerivable2 as [q Hq].
+    exists (PCongr t (T f (set_child cs i c')) p i q). cbn [check]. rewrite Hp, Hq, e.
+    assert (Hi : Nat.ltb i (length cs) = true).
+    { apply Nat.ltb_lt. apply nth_error_Some. congruence. }
+    rewrite Hi, !tm_eqb_refl. reflexivity.
+  - exists []. split; reflexivity.
+  - destruct IHDerivable as [p Hp]. destruct IHDerivable0 as (prems & Hlen & Hc).
+    exists (p :: prems). split; [cbn [length]; congruence|].
+    cbn [check_prems]. rewrite Hp. cbn [fact_matches fst snd]. rewrite e, e0, !tm_eqb_refl, Hc.
+    reflexivity.
+  - destruct IHDerivable as [p Hp]. destruct IHDerivable0 as (prems & Hlen & Hc).
+    exists (p :: prems). split; [cbn [length]; congruence|].
+    cbn [check_prems]. rewrite Hp. cbn [fact_matches fst snd]. rewrite e0, tm_eqb_refl, Hc.
+    reflexivity.
+Qed.
+
+(** "every derivable fact gets a proof the checker accepts, and only those" *)
+Theorem accepted_iff_derivable prog g : ctx_new prog = Some g ->
+  forall a b, (exists p, check_proof prog p = Some (a, b)) <-> Derivable prog a b.
+Proof.
+  intros Hg a b. split.
+  - intros [p Hp]. eapply checker_sound; eauto.
+  - intros H. destruct (checker_complete _ _ Hg _ _ H) as [p Hp]. exists p.
+    unfold check_proof. rewrite Hg. exact Hp.
+Qed.
+
+(* ------------------------------------------------------------------ *)
 (** * non-vacuity: a program, an accepted proof that uses a rule, a global action, symmetry,
       transitivity and congruence; and its rejected alterations *)
 
